@@ -9,12 +9,12 @@ import (
 	"io"
 	"net"
 	"os"
-	"testing/synctest"
 	"slices"
 	"strings"
 	"sync"
 	"testing"
 	"testing/cryptotest"
+	"testing/synctest"
 	"time"
 
 	"github.com/c2FmZQ/ech"
@@ -371,6 +371,10 @@ func (lw *liveWorld) runConn(n int, ccfg *tls.Config) *connObs {
 	if reencDone != nil {
 		<-reencDone
 	}
+	if n == 0 {
+		lastObs = lastObs[:0]
+	}
+	lastObs = append(lastObs, o)
 	o.cf, o.fc = cfLink.Sent(), fcLink.Sent()
 	if fbLink != nil {
 		o.fb, o.bf = fbLink.Sent(), bfLink.Sent()
@@ -577,6 +581,7 @@ func executeLive(t *testing.T, prop string, seed uint64, p *LivePlan) *core.Resu
 			}
 		}
 		res.SimNs = w.Now()
+		lastLive = lw
 		w.Shutdown()
 		synctest.Wait()
 		lib, other := core.Leaked()
